@@ -91,6 +91,12 @@ def run(tier, seed):
             cfg = gen.std_cfg(ns=1, backend=b, block=block)
             out = corecheck.validate(chk, cfg, gen.STD_TREE, [s for _, s in fam], label="abor:%s:b%d" % (b, block))
             nontrivial += sum(1 for sch, r, m, n in out if any(e["ev"] == "Reply" and e["code"] == "426" for e in r["trace"]))
+    if tier == "quick":
+        # the loop-iteration races also on the executor-style backend (its calls complete one iteration later: ABOR can reach a
+        # transfer task that has not taken its first step)
+        races = [s for f, s in fam if f.startswith(("race-start", "race-end"))]
+        cfg = gen.std_cfg(ns=1, backend="async", block=2)
+        corecheck.validate(chk, cfg, gen.STD_TREE, races, label="abor:async:b2")
     chk.cov["rule"] = ("RETR/STOR/APPE/LIST/MLSD x sizes x data connection before/after the command x ABOR at every step "
                        "position and while the j-th backend call is in flight, followed by further commands and a second "
                        "transfer; non-trivial = an ABOR actually interrupted a transfer (426 observed)")
